@@ -23,6 +23,27 @@ def hexList (xs : List Path) : String :=
 def parseHexList (s : String) : Option (List Path) :=
   if s = "_" then some [] else (s.splitOn ",").mapM parseHex
 
+/-- A name on an op line: hex, `-` = empty, and the token `@R` (between hex pieces) stands for the absolute path of
+    the case's root without its leading separator — the virtual one here, the real one in the harness: names that
+    are built from the root's own absolute path. -/
+def parseName (root : Path) (s : String) : Option Path :=
+  if s = "-" then some []
+  else match (s.splitOn "@R").mapM (fun piece => parseHexChars piece.toList) with
+    | some (p :: ps) => some (ps.foldl (fun acc q => acc ++ root.drop 1 ++ q) p)
+    | _ => none
+
+def parseNameList (root : Path) (s : String) : Option (List Path) :=
+  if s = "_" then some [] else (s.splitOn ",").mapM (parseName root)
+
+/-- An archive entry on an `unz` line: `<name>` or `<name>:d` (the entry's attributes say "directory");
+    `FileInfo().IsDir()` is true for those and for every name ending in `/` (archive/zip `FileHeader.Mode`). -/
+def parseEntry (root : Path) (s : String) : Option ZEntry :=
+  if s.endsWith ":d" then (parseName root (String.ofList s.toList.dropLast.dropLast)).map (fun n => ⟨n, true⟩)
+  else (parseName root s).map (fun n => ⟨n, hasSuffix n [47]⟩)
+
+def parseEntryList (root : Path) (s : String) : Option (List ZEntry) :=
+  if s = "_" then some [] else (s.splitOn ",").mapM (parseEntry root)
+
 structure Cfg where
   comp : String
   root : Path        -- clean virtual root
@@ -127,19 +148,23 @@ def siblingDir : Ents :=
   mkDir [(bs "plain.txt", Sum.inl false), (bs "secret", Sum.inl true), (bs "sub", Sum.inr Ents.nil)]
 
 /-- The directory at one level of the ancestor chain (`first`: the sandbox top). -/
-def sandboxLevel (rootNode : Option (Bool ⊕ Ents)) (first : Bool) : List Path → Ents
+def sandboxLevel (rootNode : Option (Bool ⊕ Ents)) (extraTop : List Item) (first : Bool) : List Path → Ents
   | [] => Ents.nil
   | [name] =>
-    mkDir ([(if first then bs "top.txt" else bs "note.txt", Sum.inl false),
+    mkDir ((if first then extraTop else []) ++ [(if first then bs "top.txt" else bs "note.txt", Sum.inl false),
       (name ++ bs "-other", Sum.inr siblingDir), (name ++ bs "x", Sum.inr siblingDir), (bs "other", Sum.inr siblingDir),
       (name ++ bs "-old", Sum.inr (mkDir [(bs "secret", Sum.inl true)]))] ++
       (match rootNode with | some n => [(name, n)] | none => []))
   | seg :: rest =>
-    mkDir [(if first then bs "top.txt" else bs "note.txt", Sum.inl false), (seg, Sum.inr (sandboxLevel rootNode false rest))]
+    mkDir ((if first then extraTop else []) ++
+      [(if first then bs "top.txt" else bs "note.txt", Sum.inl false), (seg, Sum.inr (sandboxLevel rootNode extraTop false rest))])
 
 /-- The whole file system: `/p1/../p8/sb/...`. -/
 def sandboxFs (rootRel : Path) (rootNode : Option (Bool ⊕ Ents)) : Ents :=
-  sbxSegs.foldr (fun seg inner => Ents.dir seg inner Ents.nil) (sandboxLevel rootNode true (segsOf rootRel))
+  -- `<top>/mirror/<absolute path of the root>/`: a foreign tree (with a decoy) whose path embeds the root's own path
+  let mirror : Ents := (sbxSegs ++ segsOf rootRel).foldr (fun seg inner => Ents.dir seg inner Ents.nil) siblingDir
+  sbxSegs.foldr (fun seg inner => Ents.dir seg inner Ents.nil)
+    (sandboxLevel rootNode [(bs "mirror", Sum.inr mirror)] true (segsOf rootRel))
 
 def fsKind (fs : Ents) (p : Path) : Kind :=
   match fsLookup fs p with
@@ -230,7 +255,7 @@ def doDsh (c : Cfg) (f : List String) : Cfg × String :=
   let t := c.tree
   match f with
   | ["chd", h, name, perm] =>
-    match h.toNat?, parseHex name, parseOct perm with
+    match h.toNat?, parseName c.root name, parseOct perm with
     | some h, some name, some perm =>
       if h < t.length then
         let (t', idx) := childDir t h name perm
@@ -243,36 +268,28 @@ def doDsh (c : Cfg) (f : List String) : Cfg × String :=
     | some h => if h < t.length then (c, showEnsureT c (ensureT t h)) else (c, "bad-op")
     | none => (c, "bad-op")
   | ["hena", h, p] =>
-    match h.toNat?, parseHex p with
+    match h.toNat?, parseName c.root p with
     | some h, some p => if h < t.length then (c, showEnsureT c (ensureAbsPathT t h p)) else (c, "bad-op")
     | _, _ => (c, "bad-op")
   | ["henr", h, p] =>
-    match h.toNat?, parseHex p with
+    match h.toNat?, parseName c.root p with
     | some h, some p => if h < t.length then (c, showEnsureT c (ensureRelPathT t h p)) else (c, "bad-op")
     | _, _ => (c, "bad-op")
   | ["hend", h, l] =>
-    match h.toNat?, parseHexList l with
+    match h.toNat?, parseNameList c.root l with
     | some h, some xs => if h < t.length then (c, showEnsureT c (ensureRelDirT t h xs)) else (c, "bad-op")
     | _, _ => (c, "bad-op")
   | _ => (c, "bad-op")
 
-/-- The unpack loop with the state of the unpack directory: (path, isDir). -/
-def unzLoop (tmp : Path) : List (Path × Bool) → List Path → String
-  | st, [] =>
-    let names := st.map (fun (p, d) => let rel := p.drop (tmp.length + 1); if d then rel ++ [47] else rel)
-    fin s!"acc files {hexList (sortPaths names)}"
-  | st, n :: ns =>
-    match unpackDst tmp n with
-    | .error e => rej e
-    | .ok dst =>
-      let isDir := hasSuffix n [47]
-      let parent := dirOf dst
-      if parent ≠ tmp ∧ ¬ st.contains (parent, true) then fin "acc oserr"
-      else if isDir then
-        if st.any (fun e => e.1 = dst) then fin "acc oserr" else unzLoop tmp (st ++ [(dst, true)]) ns
-      else if st.contains (dst, true) then fin "acc oserr"
-      else if st.contains (dst, false) then unzLoop tmp st ns
-      else unzLoop tmp (st ++ [(dst, false)]) ns
+/-- `UnpackResources` on an archive with these entries: the loop of the model on the freshly created unpack directory. -/
+def doUnz (tmp : Path) (es : List ZEntry) : String :=
+  match unpackLoop (osFresh tmp) tmp [] es with
+  | (ops, none) =>
+    let names := ops.map (fun op => let rel := op.path.drop (tmp.length + 1)
+      match op with | .mkdir _ => rel ++ [47] | .create _ => rel)
+    fin s!"acc files {hexList (sortPaths (dedup names))}"
+  | (_, some .insecure) => rej .insecure
+  | (_, some _) => fin "acc oserr"
 
 def doScan (c : Cfg) (arg : Path) : String :=
   match scanRoot c.root c.cwd arg with
@@ -336,24 +353,24 @@ def step (st : Option Cfg) (line : String) : Option Cfg × String :=
       let out :=
         if c.comp = "lib" then doLib f
         else match c.comp, f with
-          | "fst", [op, k] => match parseHex k with
+          | "fst", [op, k] => match parseName c.root k with
             | some k => doFst c op k | none => "bad-op"
           | "ds", ["ens", t, p] =>
             if t = "r" ∨ t = "c" ∨ t = "g" then
-              match parseHex p with | some p => showEnsure c (ensureAbsPath c.rootGiven p) | none => "bad-op"
+              match parseName c.root p with | some p => showEnsure c (ensureAbsPath c.rootGiven p) | none => "bad-op"
             else "bad-op"
           | "ds", ["enr", t, p] =>
             if t = "r" ∨ t = "c" ∨ t = "g" then
-              match parseHex p with | some p => showEnsure c (ensureRelPath c.rootGiven p) | none => "bad-op"
+              match parseName c.root p with | some p => showEnsure c (ensureRelPath c.rootGiven p) | none => "bad-op"
             else "bad-op"
           | "ds", ["end", t, l] =>
             if t = "r" ∨ t = "c" ∨ t = "g" then
-              match parseHexList l with | some xs => showEnsure c (ensureRelDir c.rootGiven xs) | none => "bad-op"
+              match parseNameList c.root l with | some xs => showEnsure c (ensureRelDir c.rootGiven xs) | none => "bad-op"
             else "bad-op"
-          | "upd", ["scan", p] => match parseHex p with
+          | "upd", ["scan", p] => match parseName c.root p with
             | some p => doScan c p | none => "bad-op"
-          | "upd", ["unz", l] => match parseHexList l with
-            | some xs => unzLoop (c.root ++ bs "/tmp/thing_v1-0-0") [] xs | none => "bad-op"
+          | "upd", ["unz", l] => match parseEntryList c.root l with
+            | some es => doUnz (c.root ++ bs "/tmp/thing_v1-0-0") es | none => "bad-op"
           | _, _ => "bad-op"
       (st, out)
 
